@@ -18,6 +18,7 @@ fn main() {
     match prop.as_str() {
         "C01" => props::c01::run(&mut ctx),
         "C02" => props::c02::run(&mut ctx),
+        "C03" => props::c03::run(&mut ctx),
         "C05" => props::c05::run(&mut ctx),
         "C06" => props::c06::run(&mut ctx),
         other => {
